@@ -28,7 +28,14 @@ use std::sync::atomic::Ordering::{Acquire, Relaxed};
 use crossbeam_utils::CachePadded;
 use derive_where::derive_where;
 use fixedbitset::FixedBitSet;
+#[cfg(not(oxidd_verif))]
 use parking_lot::{Condvar, Mutex, MutexGuard};
+#[cfg(oxidd_verif)]
+use parking_lot::MutexGuard;
+#[cfg(oxidd_verif)]
+use crate::verif_sync::{Condvar, Mutex};
+#[cfg(oxidd_verif)]
+use oxidd_core::verif::{self, site};
 use rustc_hash::FxHasher;
 
 use oxidd_core::error::{DuplicateVarName, OutOfMemory};
@@ -145,7 +152,11 @@ where
 }
 
 /// Size of a pre-allocation (number of nodes)
+#[cfg(not(oxidd_verif))]
 const CHUNK_SIZE: u32 = 64 * 1024;
+/// Small chunks such that the chunk-related code paths run on small diagrams
+#[cfg(oxidd_verif)]
+const CHUNK_SIZE: u32 = 8;
 
 /// State of automatic background garbage collection
 #[derive(Clone, Copy, PartialEq, Eq, Debug)]
@@ -556,6 +567,14 @@ where
     #[inline]
     fn add_node(&self, node: N) -> AllocResult<[Edge<'id, N, ET>; 2]> {
         debug_assert_eq!(node.load_rc(Relaxed), 2);
+        #[cfg(oxidd_verif)]
+        {
+            verif::yield_point(site::ADD_NODE);
+            if verif::buggify(site::BUGGIFY_ALLOC_FAIL) {
+                node.drop_with(|e| self.drop_edge(e));
+                return Err(OutOfMemory);
+            }
+        }
         let res = LOCAL_STORE_STATE.with(|state| {
             let node_count_delta = if state.current_store.get() == addr(self) {
                 let delta = state.node_count_delta.get() + 1;
@@ -710,6 +729,8 @@ where
         if unsafe { (*slot_ptr).node.release() } != 1 {
             return;
         }
+        #[cfg(oxidd_verif)]
+        verif::yield_point(site::DROP_TABLE_EDGE);
 
         // We only have exclusive access to the other fields of node after the
         // fence. It synchronizes with the `NodeBase::release()` above (which is
@@ -1023,6 +1044,8 @@ where
         if old_rc != 2 || !self.reorder_gc_prepared {
             return false;
         }
+        #[cfg(oxidd_verif)]
+        verif::yield_point(site::TRY_REMOVE_NODE);
 
         let Some(set) = self.unique_table.get(level as usize) else {
             return false;
@@ -1262,6 +1285,8 @@ where
         }
         self.gc_count.fetch_add(1, Relaxed);
         let guard = AbortOnDrop("Garbage collection panicked.");
+        #[cfg(oxidd_verif)]
+        verif::yield_point(site::GC_START);
 
         #[cfg(feature = "statistics")]
         eprintln!(
@@ -1279,6 +1304,8 @@ where
         let store = self.store();
         let mut collected = 0;
         for level in &self.unique_table {
+            #[cfg(oxidd_verif)]
+            verif::yield_point(site::GC_LEVEL);
             let mut level = level.lock();
             collected += level.len() as u32;
             // SAFETY: We prepared the garbage collection, hence there are no
@@ -1287,6 +1314,8 @@ where
             collected -= level.len() as u32;
         }
         collected += store.terminal_manager.gc();
+        #[cfg(oxidd_verif)]
+        verif::yield_point(site::GC_END);
 
         if !self.reorder_gc_prepared {
             // SAFETY: We called `pre_gc`, the garbage collection is done.
@@ -1499,6 +1528,10 @@ where
                 Ok(unsafe { nodes.clone_edge_unchecked(self.0.get_at_slot_unchecked(slot)) })
             }
             Err(slot) => {
+                // Decision point inside the critical section: every other
+                // thread may now run into the level lock
+                #[cfg(oxidd_verif)]
+                verif::yield_point(site::GET_OR_INSERT);
                 let [e1, e2] = insert(node)?;
                 // SAFETY: `slot` was returned by `find_or_find_insert_slot`.
                 // We have exclusive access to the hash table and did not modify
@@ -2319,9 +2352,13 @@ pub fn new_manager<
 
     // spell-checker:ignore mref
     let gc_mref: ManagerRef<NC, ET, TMC, RC, MDC, TERMINALS> = ManagerRef(arc.clone());
+    #[cfg(oxidd_verif)]
+    verif::expect_thread("oxidd mi gc");
     std::thread::Builder::new()
         .name("oxidd mi gc".to_string())
         .spawn(move || {
+            #[cfg(oxidd_verif)]
+            let _verif_guard = verif::thread_start("oxidd mi gc");
             // The worker is dedicated to this store.
             LOCAL_STORE_STATE.with(|state| state.current_store.set(store_addr));
 
@@ -2352,6 +2389,9 @@ pub fn new_manager<
                     shared.gc_state = GCState::Init;
                 }
             }
+            // Release the store while the simulator still controls this thread
+            #[cfg(oxidd_verif)]
+            drop(gc_mref);
         })
         .unwrap();
 
@@ -2450,6 +2490,8 @@ impl<
 {
     #[inline]
     fn drop(&mut self) {
+        #[cfg(oxidd_verif)]
+        verif::yield_point(site::FUNCTION_DROP);
         // SAFETY: `self.edge` is never used again.
         let edge = unsafe { ManuallyDrop::take(&mut self.edge) };
         self.store.0.drop_edge(edge);
@@ -2467,6 +2509,8 @@ impl<
 {
     #[inline]
     fn clone(&self) -> Self {
+        #[cfg(oxidd_verif)]
+        verif::yield_point(site::FUNCTION_CLONE);
         Self {
             store: self.store.clone(),
             edge: ManuallyDrop::new(self.store.0.clone_edge(&self.edge)),
